@@ -435,6 +435,20 @@ def apply_contracts(src, ops, modname):
                 if pr.get('at_start'):
                     w.insert(b_lo, ' ' + pr['text'].strip() + ' ', f'{label}#proof', 'W6')
                     continue
+                if 'loop' in pr:
+                    # structural anchors relative to the k-th loop: body_start | body_end | after
+                    lps = src.loops(fn)
+                    if pr['loop'] >= len(lps):
+                        if pr.get('optional'):
+                            w.lost_hints = getattr(w, 'lost_hints', []) + [f'{label}: loop #{pr["loop"]}']
+                            continue
+                        raise AnchorLost(f'{src.path}: fn `{op["path"]}` has no loop #{pr["loop"]}')
+                    _kw, bi = lps[pr['loop']]
+                    where = pr.get('where', 'body_start')
+                    off = {'body_start': toks[bi].end, 'body_end': toks[toks[bi].match].start,
+                           'after': toks[toks[bi].match].end, 'before': toks[_kw].start}[where]
+                    w.insert(off, ' ' + pr['text'].strip() + ' ', f'{label}#proof', 'W6')
+                    continue
                 needle = pr['before'] if 'before' in pr else pr['after']
                 region = text[b_lo:b_hi]
                 occ = [m.start() for m in re.finditer(re.escape(needle), region)]
@@ -484,13 +498,23 @@ def apply_contracts(src, ops, modname):
                     i_, a_, b_, k_ = m.groups()
                     head = f'let mut {i_}: usize = {a_}; while {i_} < {b_}\n{inv}\n{{'
                     tail = f' if {b_} - {i_} <= {k_} {{ break; }} {i_} += {k_}; '
+                elif r8['kind'] == 'values':
+                    # HashMap::values() (whose vstd specification only gives the length) => iter() with the key ignored
+                    m = re.match(r'^for (\w+) in (.+)\.values\(\) \{$', header)
+                    if not m:
+                        raise AnchorLost(f'{src.path}: W8 loop header `{header}` is not a values() loop')
+                    x_, e_ = m.groups()
+                    nm = (r8['iter_name'] + ': ') if r8.get('iter_name') else ''
+                    head = f'for (_w8k, {x_}) in {nm}{e_}.iter()\n{inv}\n{{'
+                    tail = ''
                 else:
                     raise ValueError(r8['kind'])
                 body_txt = text[toks[bi].end:toks[toks[bi].match].start]
                 if re.search(r'\b(continue|break)\b', body_txt):
                     raise AnchorLost(f'{src.path}: W8 loop body contains continue/break')
                 w.rewrite(toks[kwi].start, toks[bi].end, head, f'{label}#w8')
-                w.insert(toks[toks[bi].match].start, tail, f'{label}#w8tail', 'W8')
+                if tail:
+                    w.insert(toks[toks[bi].match].start, tail, f'{label}#w8tail', 'W8')
         elif k == 'append':
             w.insert(len(text), '\n' + op['text'] + '\n', f'{modname}#append', 'W1')
         else:
